@@ -307,7 +307,10 @@ with exec_instr (fuel : nat) (s : store) (locals stack : list val) (i : instr) {
       | Basic (BBrTable ls d) =>
           match stack with
           | VI32 c :: st =>
-              RBr (match nth_opt ls (Z.to_nat c) with Some l => l | None => d end) s locals st
+              (* if c < |ls| then br ls[c] else br d *)
+              RBr (if c <? Z.of_nat (length ls)
+                   then match nth_opt ls (Z.to_nat c) with Some l => l | None => d end
+                   else d) s locals st
           | _ => RStuck
           end
       | Basic BReturn => RReturn s stack
@@ -327,7 +330,7 @@ with exec_instr (fuel : nat) (s : store) (locals stack : list val) (i : instr) {
       | Basic (BCallIndirect ti) =>
           match stack, nth_opt (m_types m) ti with
           | VI32 c :: st0, Some ft =>
-              match nth_opt (s_table s) (Z.to_nat c) with
+              match (if c <? Z.of_nat (length (s_table s)) then nth_opt (s_table s) (Z.to_nat c) else None) with
               | Some (Some fi) =>
                   match func_type fi with
                   | Some ft' =>
